@@ -23,10 +23,25 @@ class Index:
         return len(self.data)
 
     def __contains__(self, k):
-        return any(bool(k == d) for d in self.data)
+        for d in self.data:
+            if isinstance(d, str) or isinstance(k, str):
+                if isinstance(d, str) and isinstance(k, str) and d == k:
+                    return True
+                continue
+            if bool(k == d):
+                return True
+        return False
 
     def tolist(self):
         return list(self.data)
+
+    def __getitem__(self, i):
+        return self.data[i]
+
+    def __eq__(self, other):
+        return [bool(a == b) for a, b in zip(self.data, list(other))]
+
+    __hash__ = None
 
     @property
     def values(self):
@@ -90,8 +105,60 @@ class _Loc:
         f = self.frame
         ridx = [f._row_pos(r) for r in rows]
         snp = _np()
-        data = {c: snp.asarray([f._cols[f._col_key(c)].data[i] for i in ridx]) for c in cols}
+        data = {c: snp.asarray([f._cols[c].data[i] for i in ridx]) for c in cols}
         return DataFrame(data, index=list(rows), columns=list(cols))
+
+
+class _Cols:
+    """ordered column store that does not hash its keys (column labels may be symbolic reals)"""
+
+    def __init__(self):
+        self.keys_, self.vals_ = [], []
+
+    def _find(self, k):
+        for i, c in enumerate(self.keys_):
+            if c is k:
+                return i
+        for i, c in enumerate(self.keys_):
+            if isinstance(c, str) or isinstance(k, str):
+                if isinstance(c, str) and isinstance(k, str) and c == k:
+                    return i
+                continue
+            try:
+                if bool(c == k):
+                    return i
+            except Unsupported:
+                continue
+        return None
+
+    def __setitem__(self, k, v):
+        i = self._find(k)
+        if i is None:
+            self.keys_.append(k)
+            self.vals_.append(v)
+        else:
+            self.vals_[i] = v
+
+    def __getitem__(self, k):
+        i = self._find(k)
+        if i is None:
+            raise KeyError(k)
+        return self.vals_[i]
+
+    def __contains__(self, k):
+        return self._find(k) is not None
+
+    def __iter__(self):
+        return iter(self.keys_)
+
+    def __len__(self):
+        return len(self.keys_)
+
+    def keys(self):
+        return list(self.keys_)
+
+    def values(self):
+        return list(self.vals_)
 
 
 class DataFrame:
@@ -99,12 +166,12 @@ class DataFrame:
 
     def __init__(self, data=None, index=None, columns=None):
         snp = _np()
-        self._cols = {}
+        self._cols = _Cols()
         if isinstance(data, dict):
             names = list(columns) if columns is not None else list(data.keys())
             for c in names:
                 self._cols[c] = snp.asarray(data[c])
-            n = len(next(iter(self._cols.values()))) if self._cols else 0
+            n = len(self._cols.values()[0]) if len(self._cols) else 0
         else:
             rows = data.tolist() if isinstance(data, snp.ndarray) else list(data)
             rows = [r if isinstance(r, (list, tuple)) else [r] for r in rows]
@@ -118,20 +185,19 @@ class DataFrame:
                 raise ValueError(f"Shape of passed values is ({n}, {width}), indices imply ({len(index) if index is not None else n}, {len(names)})")
             for j, c in enumerate(names):
                 self._cols[c] = snp.asarray([r[j] for r in rows])
-        self._names = list(self._cols.keys()) if isinstance(data, dict) else names
+        self._names = self._cols.keys() if isinstance(data, dict) else names
         if index is None:
             self.index = Index(list(range(n)))
         elif isinstance(index, Index):
             self.index = index
         else:
             self.index = Index(index)
-        if len(self.index) != n and self._cols:
+        if len(self.index) != n and len(self._cols):
             raise ValueError(f"Shape of passed values is ({n}, {len(self._names)}), indices imply ({len(self.index)}, {len(self._names)})")
 
     def _col_key(self, c):
-        for k in self._cols:
-            if type(k) is type(c) and k == c or (not isinstance(k, str) and not isinstance(c, str) and bool(k == c)):
-                return k
+        if c in self._cols:
+            return c
         raise KeyError(c)
 
     def _row_pos(self, r):
@@ -148,7 +214,7 @@ class DataFrame:
     def values(self):
         snp = _np()
         n = len(self.index)
-        return snp.asarray([[self._cols[self._col_key(c)].data[i] for c in self._names] for i in range(n)]) if n else snp.zeros((0, len(self._names)))
+        return snp.asarray([[self._cols[c].data[i] for c in self._names] for i in range(n)]) if n else snp.zeros((0, len(self._names)))
 
     @property
     def loc(self):
@@ -163,11 +229,11 @@ class DataFrame:
 
     def __getitem__(self, col):
         if isinstance(col, list):
-            return DataFrame({c: self._cols[self._col_key(c)] for c in col}, index=self.index)
-        return Series(self._cols[self._col_key(col)], index=self.index, name=col)
+            return DataFrame({c: self._cols[c] for c in col}, index=self.index)
+        return Series(self._cols[col], index=self.index, name=col)
 
     def __contains__(self, c):
-        return c in self.columns
+        return c in self._cols
 
     def apply(self, fn, axis=0):
         if axis != 1:
